@@ -73,8 +73,12 @@ var runtimes = map[string]wazero.Runtime{}
 
 func features() api.CoreFeatures { return api.CoreFeaturesV2 | experimental.CoreFeaturesThreads }
 
-func runtimeFor(engine string) wazero.Runtime {
-	if r, ok := runtimes[engine]; ok {
+func runtimeFor(engine string, cfm bool) wazero.Runtime {
+	key := engine
+	if cfm {
+		key += "+cfm"
+	}
+	if r, ok := runtimes[key]; ok {
 		return r
 	}
 	var rc wazero.RuntimeConfig
@@ -83,8 +87,8 @@ func runtimeFor(engine string) wazero.Runtime {
 	} else {
 		rc = wazero.NewRuntimeConfigInterpreter()
 	}
-	r := wazero.NewRuntimeWithConfig(context.Background(), rc.WithCoreFeatures(features()).WithMemoryLimitPages(65536))
-	runtimes[engine] = r
+	r := wazero.NewRuntimeWithConfig(context.Background(), rc.WithCoreFeatures(features()).WithMemoryLimitPages(65536).WithMemoryCapacityFromMax(cfm))
+	runtimes[key] = r
 	return r
 }
 
@@ -95,7 +99,7 @@ func runJob(j *Job, res *os.File) Result {
 	if p.Alloc {
 		ctx = experimental.WithMemoryAllocator(ctx, guardedAllocator(p.Move))
 	}
-	rt := runtimeFor(j.Engine)
+	rt := runtimeFor(j.Engine, p.CFM)
 	out := Result{ID: j.ID}
 	if strings.HasPrefix(p.Mem, "imported") {
 		owner, err := rt.InstantiateWithConfig(ctx, p.ownerBytes(), wazero.NewModuleConfig().WithName("owner"))
